@@ -32,10 +32,15 @@ TECHNIQUE = "deterministic simulation: template grammar vs independent renderer 
 LITS = ("", " ", "value=", "hit ", " and ", "-> ", "é ü 中 ", "100% done; ", "a.b,c ", "[x] ", "(p) ", "#", "\t", "'q' \"d\" ")
 FIELDS_OK = ("i", "val", "name", "flag", "person", "person.name", "person.age", "person.greet()", "data['k']",
              "data['l'][0]", "data", "G_HOST", "len(name)", "i + val", "name.upper()", "x if False else i",
-             "BIG", "BIG[1]", "i * 1.5", "val / 4", "next(cnt)", "next(cnt)")
+             "BIG", "BIG[1]", "i * 1.5", "val / 4", "next(cnt)", "next(cnt)",
+             # a ':' or '!' inside the expression belongs to the expression; nested scopes see the frame's locals
+             "i != val", "data.get('k:q', 0)", "name[1:]", "'%s:%s' % (i, flag)", "{'a': i}['a']", "name[::2]",
+             "sum(v * i for v in data['l'])", "any(v == i for v in data['l'])", "(lambda: i + 1)()",
+             "sorted(data['l'], key=lambda v: -v * i)[:1]")
 #: fields whose evaluation changes what the next evaluation yields: each occurrence is evaluated in its own place
 IMPURE = ("next(cnt)",)
-FIELDS_BAD = ("nosuch", "person.nope", "data['zz']", "1 / 0", "host_raise('kaboom')", "time_ns")
+FIELDS_BAD = ("nosuch", "person.nope", "data['zz']", "1 / 0", "host_raise('kaboom')", "time_ns", "nosuch[1:]",
+              "sum(v * nosuch for v in data['l'])")
 
 
 def gen_template(r):
@@ -59,7 +64,8 @@ def template_text(parts):
         if kind == "lit":
             out.append(t.replace("{", "{{").replace("}", "}}"))
         else:
-            out.append("{" + t + "}")
+            # an expression that itself starts (ends) with a brace is set off by a space: '{{' is the escape for '{'
+            out.append("{" + (" " if t.startswith("{") else "") + t + (" " if t.endswith("}") else "") + "}")
     return "".join(out)
 
 
@@ -206,7 +212,7 @@ def execute(s, ch):
             if snap.log_msg != msg and snap.log_msg != esc(msg):
                 viol.append(V("snapshot-log-differs", "%r vs logged %r" % (snap.log_msg, msg)))
             lw = [w_.expression for w_ in snap.watches if w_.source == 1]
-            if lw != fields:
+            if [x_.strip() for x_ in lw] != fields:   # (the space that sets a brace-led expression off is not part of it)
                 viol.append(V("snapshot-log-watches", "fields %s, LOG watches %s" % (fields, lw)))
             ctx_attr = {kv.key: kv.value.string_value for kv in snap.attributes}.get("context")
             if ctx_attr != a_ctx and a_ctx in h.uuids:
